@@ -7,7 +7,7 @@
 //	       has a marker script "a.arrai" with content <level> at EVERY level; go.mod at modLevel.
 //	       observable: open=<sorted, cleaned absolute paths opened>|out=<canon | error>
 //	fsrun  payload: mainPath, source, path1, content1, path2, content2, …
-//	       observable: canon | error
+//	       observable: open=<sorted, cleaned absolute paths opened>|out=<canon | error>
 //	pathfn payload: s, t    observable: Go's path.Clean/filepath.Clean/Join/Dir/Base/Ext/Abs on them
 //
 // The process changes its working directory once, at start, to /tmp/vc16/a/a/a (the model's `cwd`).
@@ -133,8 +133,8 @@ func init() {
 		for i := 2; i+1 < len(p); i += 2 {
 			write(fs, p[i], p[i+1])
 		}
-		out, _ := run(fs, p[0], p[1])
-		return out
+		out, rec := run(fs, p[0], p[1])
+		return "open=" + rec.list() + "|out=" + out
 	})
 
 	hlib.Register("pathfn", func(p []string) string {
